@@ -9,7 +9,9 @@ pub mod c08;
 pub mod c09;
 pub mod c12;
 pub mod c13;
+pub mod c14;
 pub mod c15;
+pub mod c16;
 pub mod c19;
 pub mod common;
 
@@ -28,10 +30,12 @@ pub fn spec(id: &str) -> Option<PropertySpec> {
         "C09" => Some(c09::spec()),
         "C12" => Some(c12::spec()),
         "C13" => Some(c13::spec()),
+        "C14" => Some(c14::spec()),
         "C15" => Some(c15::spec()),
+        "C16" => Some(c16::spec()),
         "C19" => Some(c19::spec()),
         _ => None,
     }
 }
 
-pub const ALL: [&str; 13] = ["C01", "C02", "C03", "C04", "C05", "C06", "C07", "C08", "C09", "C12", "C13", "C15", "C19"];
+pub const ALL: [&str; 15] = ["C01", "C02", "C03", "C04", "C05", "C06", "C07", "C08", "C09", "C12", "C13", "C14", "C15", "C16", "C19"];
